@@ -32,7 +32,7 @@ def label(unit):
             "faults": c.get("faults", [])}
 
 
-PAGES = [0, 1, 2, 3, 4]
+PAGES = [0, 1, 2, 3, 4, 5]
 
 
 def standard_space(tier, progs=None):
